@@ -10,8 +10,13 @@ class Cache:
     def __init__(self, idx, kind, log):
         self.idx, self.kind, self.log = idx, kind, log
 
+    during = None          # called while this cache is answering a read (what another thread does meanwhile)
+
     def _read(self, op, multi, arg):
         self.log.append((self.idx, op, (arg,), ()))
+        if self.during is not None:
+            hook, self.during = self.during, None
+            hook()
         if self.kind == NONE:
             return None
         if self.kind == EMPTY:
@@ -273,5 +278,59 @@ def main(argv):
                 if [e[0] for e in log] != want:
                     ctx.violation("after the list of caches was changed, a read did not consult the caches in the (new) configured order",
                                   dict(case, consulted=[e[0] for e in log], want=want), tags=["history", "reconfigure"])
+    # operations that are neither reads nor writes (close, quit, stats) leave the configuration alone: afterwards - the application may go on using
+    # the object, e.g. after a reconnect - writes still go to the first cache and reads still start there
+    for n in (1, 2, 3, 4):
+        for between in (["close"], ["close", "close"], ["quit"], ["stats"], ["close", "quit", "close"], ["get", "close"], ["set", "close", "get", "close", "close"]):
+            for hitpos in range(n):
+                log = []
+                caches = [Cache(i, HIT if i == hitpos else NONE, log) for i in range(n)]
+                fc = FallbackClient(list(caches))
+                ctx.case(("non-data-ops", n, tuple(between), hitpos))
+                ctx.count("non-data-operation-histories")
+                case = {"caches": n, "operations_before": between, "hit_in_cache": hitpos}
+                try:
+                    for b_ in between:
+                        fc.get("k") if b_ == "get" else fc.set("k", "v") if b_ == "set" else getattr(fc, b_)()
+                except Exception as e:
+                    ctx.violation("close/quit/stats raised", dict(case, error=repr(e)[:80]), tags=["history", "non-data-ops"])
+                    continue
+                bad = None
+                for wop, params in WRITES.items():
+                    del log[:]
+                    getattr(fc, wop)(**{p_: ("arg", p_) for p_ in params})
+                    if [e[0] for e in log] != [0] or log[0][1] != wop:
+                        bad = f"{wop} was applied to cache(s) {[e[0] for e in log]}, not to the first one"
+                        break
+                for rop in ("get", "gets", "get_many", "gets_many"):
+                    del log[:]
+                    getattr(fc, rop)("k" if not rop.endswith("many") else ["k"])
+                    if bad is None and [e[0] for e in log] != list(range(hitpos + 1)):
+                        bad = f"{rop} consulted caches {[e[0] for e in log]}, configured order is {list(range(n))} with the hit in {hitpos}"
+                if bad:
+                    ctx.violation("after operations that are neither reads nor writes: " + bad, case, tags=["history", "non-data-ops"])
+    # the list of caches is replaced (`fc.caches = [...]`, what a reconfiguring thread does) WHILE a read is waiting for some cache's answer: the read
+    # consults the caches of ONE configuration in order up to the first answer - the one in force when it began, or the new one - never a mixture
+    for n in (2, 3):
+        for m in (1, 2, 3):
+            for during_idx in range(n):
+                for old_hit in list(range(during_idx, n)) + [None]:
+                    for new_hit in list(range(m)) + [None]:
+                        for rop in ("get", "gets", "get_many", "gets_many"):
+                            log = []
+                            old = [Cache(i, HIT if i == old_hit else NONE, log) for i in range(n)]
+                            new_ = [Cache(10 + i, HIT if i == new_hit else NONE, log) for i in range(m)]
+                            fc = FallbackClient(list(old))
+                            old[during_idx].during = lambda _fc=fc, _new=new_: setattr(_fc, "caches", list(_new))
+                            getattr(fc, rop)("k" if not rop.endswith("many") else ["k"])
+                            got = [e[0] for e in log]
+                            want_old = list(range(n if old_hit is None else old_hit + 1))
+                            want_new = got[:during_idx + 1] == list(range(during_idx + 1)) and got[during_idx + 1:] == [10 + i for i in range(m if new_hit is None else new_hit + 1)]
+                            ctx.case(("rebind-during-read", n, m, during_idx, old_hit, new_hit, rop))
+                            ctx.count("reconfiguration during a read")
+                            if got != want_old and not want_new:
+                                ctx.violation("the list of caches was replaced while a read was in progress: the read consulted a mixture of the two configurations",
+                                              {"old": list(range(n)), "new": [10 + i for i in range(m)], "replaced_while_waiting_for": during_idx, "old_hit": old_hit, "new_hit": new_hit,
+                                               "read": rop, "consulted": got, "old_configuration_would_consult": want_old}, tags=["history", "reconfigure-during-read"])
     ctx.assumptions = ["caches are scripted objects; only the call log is observed"]
     ctx.finish()
